@@ -133,7 +133,7 @@ func (c *config) rewrite(node ast.Node) (ast.Node, error) {
 		// Now we make updates
 		for _, f := range x.Fields.List {
 			if c.excludePrivate {
-				r, _ := utf8.DecodeRuneInString(f.Names[0].Name)
+				r, _ := utf8.DecodeRuneInString(fieldName(f))
 				if unicode.IsLower(r) {
 					continue
 				}
@@ -177,6 +177,33 @@ func (c *config) rewrite(node ast.Node) (ast.Node, error) {
 	}
 
 	return node, nil
+}
+
+// fieldName returns the name of the field. For an embedded field this is the
+// name of the embedded type.
+func fieldName(f *ast.Field) string {
+	if len(f.Names) > 0 {
+		return f.Names[0].Name
+	}
+	typ := f.Type
+	for {
+		switch t := typ.(type) {
+		case *ast.StarExpr:
+			typ = t.X
+		case *ast.ParenExpr:
+			typ = t.X
+		case *ast.IndexExpr:
+			typ = t.X
+		case *ast.IndexListExpr:
+			typ = t.X
+		case *ast.SelectorExpr:
+			return t.Sel.Name
+		case *ast.Ident:
+			return t.Name
+		default:
+			return ""
+		}
+	}
 }
 
 func (c *config) isExcluded(tags *structtag.Tags) bool {
